@@ -83,7 +83,11 @@ pub fn gen_hermes_doc(rng: &mut Rng, size: usize) -> Value {
         toks.push(json!([0, col, src, if src >= 0 { rng.range(0, 6) } else { 0 }, if src >= 0 { rng.range(0, 40) } else { 0 }, -1,
                          if with_range && src >= 0 && rng.chance(1, 3) { 1 } else { 0 }]));
     }
-    let srcs: Vec<Value> = (0..nsrc).map(|i| json!([cps(&format!("s{}.js", i))])).collect();
+    // a sources entry may be null (it reads as the empty name) and still have tokens and a function map
+    // (at most one: two sources that read alike cannot both keep their function map through a rewrite, which merges
+    // equal names -- the statement's "no duplicates" and "same enclosing function" would contradict each other)
+    let null_at = if rng.chance(1, 4) { rng.below(nsrc) } else { nsrc };
+    let srcs: Vec<Value> = (0..nsrc).map(|i| if i == null_at { json!([]) } else { json!([cps(&format!("s{}.js", i))]) }).collect();
     let xfs: Vec<Value> = (0..nsrc).map(|_| match rng.below(8) {
         0 => json!([]),                                                    // null entry
         1 => json!([[]]),                                                  // empty metadata list
